@@ -154,21 +154,18 @@ def check(P, R):
          f'BodySizeError is answered with {st}, not 413')
     c05.check_raise_and_body(P, R, 'C13.d')
 
-    # ---- f: one buffer per read
-    fb = P.func(f'{BM}:_iter_body')
-    for loopw in [n for n in walk_shallow(fb.node) if isinstance(n, ast.While) and T.counter_of_while(n)]:
-        c04.check_bounded_read_loop(R, fb, 'C13.f|', loopw, T.counter_of_while(loopw), {'buff_size'}, require_buffer_bound=True)
-    fc = P.func(f'{BM}:_iter_chunked')
-    for loopw in [n for n in walk_shallow(fc.node) if isinstance(n, ast.While) and T.counter_of_while(n)]:
-        c04.check_bounded_read_loop(R, fc, 'C13.f|', loopw, T.counter_of_while(loopw), {'buff_size'}, require_buffer_bound=True,
-                                    eof_must='raise')
-    # fold the helper's sub-rules into C13.f
-    for o in R.obligations:
-        if o['rule'].startswith('C13.f|'):
-            o['key'] = o['key'].replace(o['rule'], 'C13.f')
-            o['rule'] = 'C13.f'
-    for k in [k for k in R.rules if k.startswith('C13.f|')]:
-        R.rules['C13.f']['n'] += R.rules.pop(k)['n']
+    # ---- f: one buffer per read (only the buffer bound matters here; exactness of the accounting is C04 / C05)
+    for fq in (f'{BM}:_iter_body', f'{BM}:_iter_chunked'):
+        fr_ = P.func(fq)
+        reads = [c for c in c04.read_param_calls(fr_) if c.args and not (isinstance(c.args[0], ast.Constant) and c.args[0].value == 1)]
+        R.require(reads, f'{fq}: payload read not found')
+        for c in reads:
+            cn = fr_.cfg.node_of_stmt(c)[0]
+            cl = fr_.rd.closure_nodes(c.args[0], cn)
+            mins = [x for x in cl if isinstance(x, ast.Call) and dotted(x.func) == 'min']
+            ok = any('buff_size' in names_loaded(a_) for m in mins for a_ in m.args) or (isinstance(c.args[0], ast.Name) and c.args[0].id == 'buff_size')
+            R.ob('C13.f', fr_, c, ok, detail='' if ok else 'a payload read is not bounded by the buffer size: more than limit + one buffer can be pulled in before the 413',
+                 why='rejected after reading at most the limit plus one buffer')
 
     check_memory_budget(P, R)
 
